@@ -241,7 +241,7 @@ def run(ctx):
     ctx.judge("C14_Trace", "C14_Trace.cfg", obs, "generators-x-parameters", "c14", "exec_case", batch_events=60)
     ctx.exhaustive = False
     ctx.assumptions += [
-        "the apex angle defect of ring() (found by bisection on atan2) is not decided; only its counts, topology and rim radius",
+        "the angle defect at the centre of ring() / flat_ring() is measured in floating point by the driver and judged within 2 micro-radians of the clamped request",
         "volume outputs (volume=True) are judged for class, cell, counts and indices; their face list is not a surface",
         "icosahedron / icosphere(0) / spherify(n=0): all vertices at ONE distance from the centre (the 'unit icosahedron' is not on the unit sphere); consistently oriented does not mean outward",
         "cylindrify_edges is driven on unit-length polylines (its radius is relative to the mean edge length)",
